@@ -428,7 +428,123 @@ def exhaustive_cases(rng, limit=None):
     return cases
 
 
+# ----------------------------------------------------------------------------- several resolver objects in one process
+def ctor_ok(vcf, cf):
+    return is_lazy(cf) or cf['chrom'] is None or cf['chrom'] in vcf['contigs']
+
+
+def group_spec(g):
+    """what every operation must answer: the specification for THAT object's settings and VCF"""
+    out = []
+    for s_, i, q in g['ops']:
+        sess = g['sessions'][s_]
+        cf = sess['objects'][i]
+        out.append(-1 if not ctor_ok(sess['vcf'], cf) else spec_run(sess['vcf'], {'cfg': cf, 'queries': [q]})[0])
+    return out
+
+
+def group_as_cases(g):
+    """per session, the pseudo history with the same (settings, contig) keys: used for the precondition"""
+    return [{'vcf': sess['vcf'], 'history': [{'cfg': sess['objects'][i], 'queries': [q]} for s_, i, q in g['ops'] if s_ == k]}
+            for k, sess in enumerate(g['sessions'])]
+
+
+def group_precondition(g):
+    return all(precondition(c) for c in group_as_cases(g))
+
+
+def group_vals(g):
+    """model inputs (mode 6/7/8), one per session: [vcf; objects; ops of that session in order]"""
+    out = []
+    for k, sess in enumerate(g['sessions']):
+        cv = case_val({'vcf': sess['vcf'], 'history': []})[0]
+        ops = [[i, [q[0], fw.to_val(q[1]), q[2]] + ([fw.to_val(q[3])] if q[0] == 0 else [])] for s_, i, q in g['ops'] if s_ == k]
+        out.append([cv, [cfg_val(cf) for cf in sess['objects']], ops])
+    return out
+
+
+def canon_answer(a):
+    if a == 'RAISE':
+        return -1
+    return canon_impl_run([a])[0]
+
+
+def gen_group(rng):
+    """several AlleleResolver objects alive at once, operations interleaved"""
+    style = rng.random()
+    vcf = gen_vcf(rng)
+    while not vcf['records']:
+        vcf = gen_vcf(rng)
+    allq = []
+    for r in vcf['records']:
+        for b in rec_alleles(r)[:2]:
+            allq.append([0, r['chrom'], r['pos'] - 1, b])
+        allq.append([1, r['chrom'], r['pos'] - 1])
+    rng.shuffle(allq)
+    allq = allq[:10]
+    base = {'phased': True, 'select': None, 'ignore': None, 'lazy': False, 'cache': False, 'chrom': None}
+    smp = vcf['samples']
+    sub = smp[:max(1, len(smp) - 1)]
+    sessions = [{'vcf': vcf, 'objects': []}]
+    if style < 0.25:
+        # A eager on all samples, B lazy (or cached) on a selection, created after A was used; A / B / A
+        sessions[0]['objects'] = [dict(base), dict(base, lazy=True, cache=rng.random() < 0.4, select=sub)]
+        ops = [[0, 0, q] for q in allq] + [[0, 1, q] for q in allq] + [[0, 0, q] for q in allq[:4]]
+    elif style < 0.5:
+        # two (three) eager objects with different settings, strictly alternating
+        o2 = dict(base, **rng.choice([{'select': sub}, {'ignore': [['C', 'T'], ['G', 'A']]}, {'phased': False},
+                                      {'ignore': [[vcf['records'][0]['ref'], (vcf['records'][0]['alts'] or ['A'])[0]]]}]))
+        sessions[0]['objects'] = [dict(base), o2, dict(base, chrom=rng.choice(vcf['contigs']))]
+        ops = []
+        for q in allq:
+            for i in rng.sample([0, 1, 2], rng.choice([2, 3])):
+                ops.append([0, i, q])
+    elif style < 0.75:
+        # two VCF files with the same contigs and positions but other genotypes / alleles
+        v2 = json.loads(json.dumps(vcf))
+        for r in v2['records']:
+            r['gts'] = [list(reversed(g)) for g in reversed(r['gts'])]
+            if rng.random() < 0.5 and r['alts']:
+                r['alts'] = [a if a != 'T' else 'G' for a in r['alts']]
+                if r['ref'] in r['alts']:
+                    r['alts'] = [a for a in r['alts'] if a != r['ref']] or ['N']
+                    r['gts'] = [[None if a is None else min(a, len(r['alts'])) for a in g] for g in r['gts']]
+        sessions = [{'vcf': vcf, 'objects': [dict(base, lazy=rng.random() < 0.5), dict(base, lazy=True, cache=True)]},
+                    {'vcf': v2, 'objects': [dict(base, lazy=rng.random() < 0.5), dict(base, lazy=True, cache=True)]}]
+        ops = []
+        for q in allq:
+            for s_, i in rng.sample([(0, 0), (1, 0), (0, 1), (1, 1)], rng.choice([2, 3, 4])):
+                ops.append([s_, i, q])
+    else:
+        n = rng.randint(2, 4)
+        sessions[0]['objects'] = [gen_cfg(rng, vcf) for _ in range(n)]
+        ops = [[0, rng.randrange(n), q] for q in gen_queries(rng, vcf, n=rng.randint(8, 20))]
+    return {'sessions': sessions, 'ops': ops}
+
+
 # ----------------------------------------------------------------------------- running the implementation
+def run_impl_groups(groups, jobs=4):
+    if not groups:
+        return []
+    jobs = max(1, min(jobs, len(groups) // 10 or 1))
+    chunks = [groups[i::jobs] for i in range(jobs)]
+    with ThreadPoolExecutor(max_workers=jobs) as ex:
+        res = list(ex.map(lambda ch: fw.run_impl('impl_c18.py', {'groups': ch})['groups'], chunks))
+    out = [None] * len(groups)
+    for j, r in enumerate(res):
+        for k, x in enumerate(r):
+            out[j + k * jobs] = x
+    return out
+
+
+def run_alone(items, kind):
+    """every item in its OWN process of the real class (what a replay does)"""
+    if not items:
+        return []
+    with ThreadPoolExecutor(max_workers=min(8, len(items))) as ex:
+        return list(ex.map(lambda it: fw.run_impl('impl_c18.py', {kind: [it]})[kind][0], items))
+
+
 def run_impl_cases(cases, jobs=8):
     if not cases:
         return []
@@ -573,6 +689,26 @@ class Prop(fw.PropBase):
                            'through a fresh cache and through the cache again (%d cases)' % len(exh),
         })
         dis = []
+        # ---- several resolver objects alive in one process, interleaved: each answer against the specification for
+        #      that object's own settings (no model needed)
+        groups = [gen_group(self.rng) for _ in range(70 if self.tier == 'quick' else 1500)]
+        self.groups = groups
+        gres = run_impl_groups(groups)
+        self.gres = gres
+        gspec = [group_spec(g) for g in groups]
+        gpre = [group_precondition(g) for g in groups]
+        nobj = 0
+        for gi, (g, r) in enumerate(zip(groups, gres)):
+            if r.get('error'):
+                dis.append({'kind': 'impl-runner (several objects)', 'group': gi, 'error': r['error']})
+                continue
+            nobj += len(g['ops'])
+            if gpre[gi] and [canon_answer(a) for a in r['answers']] != gspec[gi]:
+                dis.append({'kind': 'impl-vs-spec (several objects)', 'group': gi})
+        self.cov['multi_object_sessions'] = len(groups)
+        self.cov['multi_object_operations'] = nobj
+        self.cov['multi_object_precondition_hit_rate'] = round(sum(gpre) / max(1, len(gpre)), 4)
+        self.cov['evaluations'] += nobj
         # ---- pysam's view of the generated VCF equals the abstraction handed to the model
         nview = 0
         for i, (c, r) in enumerate(zip(cases, res)):
@@ -627,6 +763,25 @@ class Prop(fw.PropBase):
             for (cf, ct), o in zip(nm, mn):
                 if fw.as_str(o[0]) != cache_name(cf, ct) or bool(o[1]) != cacheable(ct):
                     dis.append({'kind': 'python-cache-name-vs-coq', 'cfg': cf, 'contig': ct})
+            # several objects alive in one process: model (mode 6) and Coq specification (mode 8)
+            gv = [(gi, k, x) for gi, g in enumerate(groups) for k, x in enumerate(group_vals(g))]
+            m6 = fw.run_model('C18', 6, [x for _, _, x in gv])
+            m7 = fw.run_model('C18', 7, [x for _, _, x in gv])
+            m8 = fw.run_model('C18', 8, [x for _, _, x in gv])
+            for (gi, k, x), o6, o7, o8 in zip(gv, m6, m7, m8):
+                g, r = groups[gi], gres[gi]
+                if r.get('error'):
+                    continue
+                idx = [n for n, op in enumerate(g['ops']) if op[0] == k]
+                got = [canon_answer(r['answers'][n]) for n in idx]
+                if got != o6[0]:
+                    dis.append({'kind': 'model-vs-impl-answers (several objects)', 'group': gi, 'session': k})
+                if {fw.as_str(n): fw.as_str(t) for n, t in o6[1]} != r['caches'][k]:
+                    dis.append({'kind': 'model-vs-impl-cache-files (several objects)', 'group': gi, 'session': k})
+                if [gspec[gi][n] for n in idx] != o8:
+                    dis.append({'kind': 'python-spec-vs-coq-spec (several objects)', 'group': gi, 'session': k})
+                if bool(o7) and o6[0] != o8:
+                    dis.append({'kind': 'model-vs-spec (theorem instance!) (several objects)', 'group': gi, 'session': k})
             # read_cached on arbitrary (also damaged) cache files: real method against the model's parser
             texts = [gen_cache_text(self.rng) for _ in range(150 if self.tier == 'quick' else 1500)]
             rt = fw.run_impl('impl_c18.py', {'cache_texts': texts})['texts']
@@ -653,6 +808,8 @@ class Prop(fw.PropBase):
             d0 = dict(dis[0])
             if 'case' in d0:
                 d0['input'] = cases[d0['case']]
+            if 'group' in d0:
+                d0['input'] = groups[d0['group']]
             raise fw.Broken('correspondence', '%d disagreements (%s); first: %s'
                             % (len(dis), sorted(set(d['kind'] for d in dis)), json.dumps(d0, default=str)[:1500]))
 
@@ -758,15 +915,23 @@ class Prop(fw.PropBase):
         found = {}
         for c, f in fails:
             key = self.classify(c, f)[0] + (HD if (id(c), f[0]) in hist_dep else '')
-            size = len(json.dumps(c))
-            if key not in found or size < found[key][0]:
-                found[key] = (size, c)
+            found.setdefault(key, []).append((len(json.dumps(c)), c))
+        for key in found:
+            found[key] = [c for _, c in sorted(found[key], key=lambda x: x[0])[:4]]
+        # several objects in one process
+        self.search_groups()
         done = set()
-        order = sorted(found, key=lambda k: (HD not in k, found[k][0], k))
+        order = sorted(found, key=lambda k: (HD not in k, len(json.dumps(found[k][0])), k))
         for key in order[:5]:
             if len(self.witnesses) >= 3:
                 break
-            c = found[key][1]
+            # a witness must reproduce in a process of its own (other cases of the batch may have left state behind)
+            alone_res = run_alone(found[key], 'cases')
+            cand = next((c for c, r in zip(found[key], alone_res) if self.failing(c, r) is not None), None)
+            if cand is None:
+                self.notes.append('failures of kind %s did not reproduce in a fresh process (state carried over between cases?)' % key)
+                continue
+            c = cand
             try:
                 c = self.shrink(c, key, HD)
             except Exception as e:
@@ -774,7 +939,11 @@ class Prop(fw.PropBase):
             r = fw.run_impl('impl_c18.py', {'cases': [c]})['cases'][0]
             fa = self.failing_all(c, r)
             if not fa:
-                continue
+                c = cand
+                r = fw.run_impl('impl_c18.py', {'cases': [c]})['cases'][0]
+                fa = self.failing_all(c, r)
+                if not fa:
+                    continue
             base = key[:-len(HD)] if key.endswith(HD) else key
             f = next((x for x in fa if self.classify(c, x)[0] == base and (x[0] > 0 or not key.endswith(HD))), fa[0])
             key2, what = self.classify(c, f)
@@ -790,8 +959,91 @@ class Prop(fw.PropBase):
                                    'expected': [spec_run(c['vcf'], run) for run in c['history']],
                                    'cache_files': r.get('cache')})
 
+    # -- several objects
+    def group_failing(self, g, r):
+        if r.get('error'):
+            return (None, r['error'], None)
+        exp = group_spec(g)
+        got = [canon_answer(a) for a in r['answers']]
+        for n in range(len(exp)):
+            if n >= len(got) or got[n] != exp[n]:
+                return (n, got[n] if n < len(got) else None, exp[n])
+        return None
+
+    def describe_group(self, g, f):
+        n, got, exp = f
+        if n is None:
+            return 'objects:runner', 'runner failed: %s' % got
+        s_, i, q = g['ops'][n]
+        cf = g['sessions'][s_]['objects'][i]
+        mode = ('use_cache' if cf['cache'] else '') + ('+lazyLoad' if cf['lazy'] else '') or 'eager'
+        others = sorted(set((a, b) for a, b, _ in g['ops'][:n] if (a, b) != (s_, i)))
+        key = 'objects:%s:%s' % (mode, 'has_location' if q[0] else 'getAllelesAt')
+        what = ('%d resolver objects in one process; operation %d on object %d of VCF %d [%s]: %s returned %s; that object\'s '
+                'settings and VCF demand %s; objects used before it: %s'
+                % (sum(len(x['objects']) for x in g['sessions']), n + 1, i, s_, flags(cf), describe_query(q),
+                   show_answer(got), show_answer(exp),
+                   ', '.join('object %d of VCF %d [%s]' % (b, a, flags(g['sessions'][a]['objects'][b])) for a, b in others) or 'none'))
+        return key, what
+
+    def search_groups(self):
+        groups = getattr(self, 'groups', None)
+        gres = getattr(self, 'gres', None)
+        if groups is None or gres is None:
+            groups = [gen_group(self.rng) for _ in range(70)]
+            gres = run_impl_groups(groups)
+        bad = [g for g, r in zip(groups, gres) if group_precondition(g) and self.group_failing(g, r) is not None]
+        bad = sorted(bad, key=lambda g: len(json.dumps(g)))[:6]
+        alone = run_alone(bad, 'groups')
+        cand = next(((g, r) for g, r in zip(bad, alone) if self.group_failing(g, r) is not None), None)
+        if cand is None:
+            if bad:
+                self.notes.append('multi-object failures did not reproduce in a fresh process')
+            return
+        g, r = cand
+        key = self.describe_group(g, self.group_failing(g, r))[0]
+        for _ in range(5):
+            ops = g['ops']
+            n = self.group_failing(g, r)[0] or 0
+            vs = []
+            if n + 1 < len(ops):
+                vs.append(dict(g, ops=ops[:n + 1]))
+            for a, b in ((0, n // 2), (n // 2, n), (0, n // 4), (n // 4, n // 2), (n // 2, 3 * n // 4), (3 * n // 4, n)):
+                if b > a:
+                    vs.append(dict(g, ops=ops[:a] + ops[b:]))
+            for k in range(min(n, 6)):
+                vs.append(dict(g, ops=ops[:k] + ops[k + 1:]))
+            for k, sess in enumerate(g['sessions']):
+                recs = sess['vcf']['records']
+                if len(recs) > 1:
+                    for part in (recs[:len(recs) // 2], recs[len(recs) // 2:]):
+                        ss = list(g['sessions'])
+                        ss[k] = dict(sess, vcf=dict(sess['vcf'], records=part))
+                        vs.append(dict(g, sessions=ss))
+            vs = [x for x in vs if x['ops'] and group_precondition(x)][:16]
+            rs = run_alone(vs, 'groups')
+            ok = [(x, y) for x, y in zip(vs, rs)
+                  if self.group_failing(x, y) is not None and self.describe_group(x, self.group_failing(x, y))[0] == key]
+            if not ok:
+                break
+            g, r = min(ok, key=lambda xy: len(json.dumps(xy[0])))
+        f = self.group_failing(g, r)
+        key, what = self.describe_group(g, f)
+        self.witnesses.append({'key': key, 'what': what, 'input': {'group': g}, 'impl': r.get('answers'),
+                               'expected': group_spec(g)})
+
     def replay(self, data):
         w = data.get('witness')
+        if w and isinstance(w.get('input'), dict) and 'group' in w['input']:
+            g = w['input']['group']
+            r = fw.run_impl('impl_c18.py', {'groups': [g]})['groups'][0]
+            f = self.group_failing(g, r)
+            print(json.dumps({'input': g, 'impl': r.get('answers'), 'expected': group_spec(g)}, default=str)[:3000])
+            if f is not None:
+                print('VIOLATION property=C18 (replayed) %s' % self.describe_group(g, f)[1])
+                return 1
+            print('C18 replay: the recorded input no longer fails')
+            return 0
         if w and 'input' in w:
             c = w['input']
             r = fw.run_impl('impl_c18.py', {'cases': [c]})['cases'][0]
